@@ -131,8 +131,16 @@ def gen_apply(rng: random.Random, tier: str):
             x = [round(v * max(g["size"]), 3) for v in x]
         elif a == "world":
             x = [round(v * 30 + p, 3) for v, p in zip(x, g.get("origin", g.get("center")))]
+        decimals = rng.choice([None, None, -1, 3])
+        if decimals == 3:
+            # an input like 1.1855 is an exact tie of the rounding to 3 decimals in decimal arithmetic, which binary floating
+            # point decides by the rounding of x·1000 (torch: 1185.5 -> 1186, the exact value of the float64 1.1855 lies just
+            # below): when source and target axes coincide the map is the identity and the input itself is rounded. Such
+            # inputs are moved off the tie, as the non-dyadic nearest-neighbour ties of the sampling primitive were (§11)
+            x = [v + 1e-4 if round(abs(v) * 1e4) % 10 == 5 else v for v in x]
+            x = [round(v, 4) for v in x]
         c = {"grid": g, "to_grid": g2, "axes": a, "to_axes": b, "kind": kind, "x": x,
-             "decimals": rng.choice([None, None, -1, 3]), "dtype": rng.choice(["float32", "float64"]),
+             "decimals": decimals, "dtype": rng.choice(["float32", "float64"]),
              "lead": rng.choice([[], [1], [2], [2, 3]])}
         if kind == "helper":
             c["helper"] = rng.choice(HELPERS)
